@@ -6,10 +6,13 @@ import (
 	"bufio"
 	"encoding/hex"
 	"fmt"
+	"io"
 	"math/big"
 	"os"
+	"os/exec"
 	"strconv"
 	"strings"
+	"time"
 )
 
 // Rand is a splitmix64 stream; every random choice of a run derives from the one seed.
@@ -103,10 +106,13 @@ func Emit(c, obs string) {
 
 // Main implements the command line shared by all harnesses:
 //
-//	<bin> gen <seed> <n>    generate n cases (corpus first), run them on the real code, print lines
+//	<bin> gen <seed> <n>    generate n cases, run them on the real code, print "case => observation" lines
 //	<bin> run <file>        read case lines (anything after " => " is ignored), run them, print lines
+//	<bin> worker            (internal) read case lines on stdin, answer each on stdout
 //
-// gen(r, n) must return the case strings; run(case) the canonical observation.
+// gen and run execute the cases in a child process (worker) under a per-case watchdog: a case that does not answer
+// within VERIF_CASE_TIMEOUT seconds (default 10) is reported as "HANG", a case on which the process dies as "CRASH",
+// and the worker is restarted for the next case. gen(r, n) returns the case strings; run(case) the canonical observation.
 func Main(gen func(r *Rand, n int) []string, run func(c string) string) {
 	defer Out.Flush()
 	if len(os.Args) < 2 {
@@ -117,9 +123,7 @@ func Main(gen func(r *Rand, n int) []string, run func(c string) string) {
 	case "gen":
 		seed, _ := strconv.ParseUint(os.Args[2], 10, 64)
 		n, _ := strconv.Atoi(os.Args[3])
-		for _, c := range gen(NewRand(seed), n) {
-			Emit(c, run(c))
-		}
+		isolated(gen(NewRand(seed), n))
 	case "run":
 		f, err := os.Open(os.Args[2])
 		if err != nil {
@@ -128,6 +132,7 @@ func Main(gen func(r *Rand, n int) []string, run func(c string) string) {
 		}
 		sc := bufio.NewScanner(f)
 		sc.Buffer(make([]byte, 1<<20), 1<<28)
+		var cases []string
 		for sc.Scan() {
 			line := sc.Text()
 			if i := strings.Index(line, " => "); i >= 0 {
@@ -136,10 +141,100 @@ func Main(gen func(r *Rand, n int) []string, run func(c string) string) {
 			if strings.TrimSpace(line) == "" || strings.HasPrefix(line, "#") {
 				continue
 			}
-			Emit(line, run(line))
+			cases = append(cases, line)
+		}
+		isolated(cases)
+	case "worker":
+		sc := bufio.NewScanner(os.Stdin)
+		sc.Buffer(make([]byte, 1<<20), 1<<28)
+		for sc.Scan() {
+			c := sc.Text()
+			Emit(c, run(c))
+			Out.Flush()
 		}
 	default:
 		os.Exit(2)
+	}
+}
+
+type worker struct {
+	cmd   *exec.Cmd
+	in    io.WriteCloser
+	lines chan string
+}
+
+func startWorker() *worker {
+	cmd := exec.Command(os.Args[0], "worker")
+	cmd.Stderr = io.Discard
+	in, err := cmd.StdinPipe()
+	if err != nil {
+		panic(err)
+	}
+	out, err := cmd.StdoutPipe()
+	if err != nil {
+		panic(err)
+	}
+	if err = cmd.Start(); err != nil {
+		panic(err)
+	}
+	w := &worker{cmd: cmd, in: in, lines: make(chan string, 16)}
+	go func() {
+		sc := bufio.NewScanner(out)
+		sc.Buffer(make([]byte, 1<<20), 1<<28)
+		for sc.Scan() {
+			w.lines <- sc.Text()
+		}
+		close(w.lines)
+	}()
+	return w
+}
+
+func (w *worker) stop() {
+	_ = w.in.Close()
+	_ = w.cmd.Process.Kill()
+	_, _ = w.cmd.Process.Wait()
+}
+
+func isolated(cases []string) {
+	limit := 10 * time.Second
+	if v, err := strconv.Atoi(os.Getenv("VERIF_CASE_TIMEOUT")); err == nil && v > 0 {
+		limit = time.Duration(v) * time.Second
+	}
+	var w *worker
+	bad := 0
+	for _, c := range cases {
+		if bad >= 3 { // the code under test hangs or crashes repeatedly: three witnesses are enough, do not wait for more
+			break
+		}
+		if w == nil {
+			w = startWorker()
+		}
+		if _, err := io.WriteString(w.in, c+"\n"); err != nil {
+			w.stop()
+			w = nil
+			Emit(c, "CRASH")
+			continue
+		}
+		select {
+		case line, ok := <-w.lines:
+			if !ok {
+				w.stop()
+				w = nil
+				bad++
+				Emit(c, "CRASH")
+				continue
+			}
+			Out.WriteString(line)
+			Out.WriteByte('\n')
+		case <-time.After(limit):
+			w.stop()
+			w = nil
+			bad++
+			Emit(c, "HANG")
+		}
+	}
+	if w != nil {
+		w.stop()
 	}
 }
 
